@@ -11,6 +11,7 @@ import (
 
 var textWords = []string{
 	"hello", "World", "a", "I", "ça", "naïve", "Ünï", "日本語", "中文", "한국어", "العربية", "עברית", "emoji😀", "𝔘𝔫𝔦", "é", "ọ̈",
+	"\ufeffzw", "z\u200bw", "l\u2028s", "n\u0085l", "İi", "ǅ", "ﬁ",
 	"3", "42", "1.5", "x=y", "100%", "#tag", "@me", "it's", "\"q\"", "(p)", "[b]", "-", "–", "…", "!?", "a/b", "c\\d", "~", "^", "_u_", "`", "|",
 }
 
